@@ -70,10 +70,12 @@ inline std::vector<double> allgather_vec(const double *loc, const Part &rp, int 
 inline ptrdiff_t row_shift_of(ptrdiff_t nloc) { World &w = world(); long long v = nloc, s = 0; MPI_Exscan(&v, &s, 1, MPI_LONG_LONG, MPI_SUM, w.comm); return w.rank == 0 ? 0 : (ptrdiff_t)s; }
 // rank 0: global CSR (scalar double) from the bag records of one tag; dups / range errors reported through the flags
 struct GMat { Csr<double> M; long dups = 0, range = 0; };
-inline GMat bag_to_csr(const Bag &b, int tag, long n, long m) {
+// bs > 1: the records carry bs x bs blocks (row-major); the result is the scalar expansion (n*bs x m*bs)
+inline GMat bag_to_csr(const Bag &b, int tag, long n, long m, int bs = 1) {
     GMat g; std::vector<std::tuple<ptrdiff_t, ptrdiff_t, double>> t; std::set<std::pair<long, long>> seen;
-    for (auto r : b.with(tag)) { if (r->i < 0 || r->i >= n || r->j < 0 || r->j >= m) { g.range++; continue; } if (!seen.insert({r->i, r->j}).second) { g.dups++; continue; } t.emplace_back(r->i, r->j, r->v[0]); }
-    g.M = vf::from_triplets<double>(n, m, t); return g;
+    for (auto r : b.with(tag)) { if (r->i < 0 || r->i >= n || r->j < 0 || r->j >= m || (int)r->v.size() != bs * bs) { g.range++; continue; } if (!seen.insert({r->i, r->j}).second) { g.dups++; continue; }
+        for (int p = 0; p < bs; ++p) for (int q = 0; q < bs; ++q) t.emplace_back(r->i * bs + p, r->j * bs + q, r->v[p * bs + q]); }
+    g.M = vf::from_triplets<double>(n * bs, m * bs, t); return g;
 }
 
 //---------------------------------------------------------------------------
@@ -116,6 +118,95 @@ inline void check_truth(Case &c, const std::string &tag, const Csr<double> &A, c
         vf::obs_max("max_iters_converged_" + sp.solver, (double)o.iters);
     }
 }
+
+//---------------------------------------------------------------------------
+// Recording coarsening wrapper (an ordinary template argument of mpi::amg)
+//---------------------------------------------------------------------------
+struct LevelRec { Csr<double> A, P, R, Ac; long bad = 0; bool have_ac = false; };
+struct Recorder { bool on = false; std::vector<LevelRec> lv; };
+inline Recorder &rec_state() { static Recorder r; return r; }
+#define g_rec (::c12::rec_state())
+enum { RT_A = 1, RT_P, RT_R, RT_AC };
+
+template <class Base, class Backend> struct Rec {
+    typedef amgcl::mpi::distributed_matrix<Backend> DM; static const int BS = amgcl::math::static_rows<typename Backend::value_type>::value;
+    typedef typename Base::params params; Base base;
+    Rec(const params &p = params()) : base(p) {}
+    std::tuple<std::shared_ptr<DM>, std::shared_ptr<DM>> transfer_operators(const DM &A) {
+        auto PR = base.transfer_operators(A);
+        if (g_rec.on) { auto &P = *std::get<0>(PR); auto &R = *std::get<1>(PR); Bag bag(world().comm);
+            vfm::bag_dm(bag, RT_A, A, A.loc_col_shift()); vfm::bag_dm(bag, RT_P, P, A.loc_col_shift()); vfm::bag_dm(bag, RT_R, R, P.loc_col_shift()); bag.collect();
+            LevelRec L; if (world().rank == 0) { GMat a = bag_to_csr(bag, RT_A, A.glob_rows(), A.glob_cols(), BS), p = bag_to_csr(bag, RT_P, P.glob_rows(), P.glob_cols(), BS), r = bag_to_csr(bag, RT_R, R.glob_rows(), R.glob_cols(), BS);
+                L.A = a.M; L.P = p.M; L.R = r.M; L.bad = a.dups + a.range + p.dups + p.range + r.dups + r.range; }
+            g_rec.lv.push_back(L); }
+        return PR;
+    }
+    std::shared_ptr<DM> coarse_operator(const DM &A, const DM &P, const DM &R) const {
+        auto Ac = base.coarse_operator(A, P, R);
+        if (g_rec.on && !g_rec.lv.empty()) { Bag bag(world().comm); vfm::bag_dm(bag, RT_AC, *Ac, Ac->loc_col_shift()); bag.collect();
+            if (world().rank == 0) { GMat a = bag_to_csr(bag, RT_AC, Ac->glob_rows(), Ac->glob_cols(), BS); g_rec.lv.back().Ac = a.M; g_rec.lv.back().bad += a.dups + a.range; } g_rec.lv.back().have_ac = true; }
+        return Ac;
+    }
+};
+template <class Base, class Backend> unsigned block_size(const Rec<Base, Backend> &r) { return block_size(r.base); }
+
+
+//---------------------------------------------------------------------------
+// Hierarchy oracles (rank 0)
+//---------------------------------------------------------------------------
+inline bool same_matrix(const Csr<double> &X, const Csr<double> &Y) { return X.n == Y.n && X.m == Y.m && X.ptr == Y.ptr && X.col == Y.col && X.val == Y.val; }
+
+// A_c = s * R A P against the sparse long-double triple product; pattern = structural pattern
+inline void check_galerkin(Case &c, const std::string &tag, const Csr<double> &A, const Csr<double> &P, const Csr<double> &R, const Csr<double> &Ac, double s) {
+    const long double u = 1.1102230246251565e-16L;
+    if (!c.check(P.n == A.n && R.m == A.n && R.n == P.m && Ac.n == P.m && Ac.m == P.m, "galerkin:shape:" + tag, "shapes of A, P, R, A_c do not fit", J().n("An", A.n).n("Pn", P.n).n("Pm", P.m).n("Rn", R.n).n("Rm", R.m).n("Acn", Ac.n))) return;
+    struct T { long double v = 0, a = 0; long cnt = 0; };
+    std::vector<std::map<long, T>> AP(A.n);
+    for (size_t i = 0; i < A.n; ++i) for (auto ja = A.ptr[i]; ja < A.ptr[i + 1]; ++ja) { auto k = A.col[ja]; for (auto jp = P.ptr[k]; jp < P.ptr[k + 1]; ++jp) { T &t = AP[i][P.col[jp]]; long double p = (long double)A.val[ja] * P.val[jp]; t.v += p; t.a += fabsl(p); t.cnt++; } }
+    bool pat = true, val = true; double worst = 0; long nent = 0;
+    for (size_t a = 0; a < R.n; ++a) { std::map<long, T> row;
+        for (auto jr = R.ptr[a]; jr < R.ptr[a + 1]; ++jr) for (auto &kv : AP[R.col[jr]]) { T &t = row[kv.first]; t.v += (long double)R.val[jr] * kv.second.v; t.a += fabsl(R.val[jr]) * kv.second.a; t.cnt += kv.second.cnt; }
+        if ((size_t)(Ac.ptr[a + 1] - Ac.ptr[a]) != row.size()) pat = false;
+        for (auto j = Ac.ptr[a]; j < Ac.ptr[a + 1]; ++j) { auto it = row.find(Ac.col[j]); if (it == row.end()) { pat = false; continue; } ++nent;
+            long double ref = s * it->second.v, bound = 2.0L * (it->second.cnt + 6) * u * fabsl(s) * it->second.a, d = fabsl((long double)Ac.val[j] - ref);
+            if (!(d <= bound)) val = false; if (it->second.a > 0) worst = std::max(worst, (double)(d / (fabsl(s) * it->second.a))); } }
+    c.check(pat, "galerkin:pattern:" + tag, "pattern of the distributed coarse matrix differs from the structural pattern of R A P");
+    c.check(val, "galerkin:value:" + tag, "distributed coarse matrix differs from s R A P beyond the forward rounding bound", J().n("scale", s).n("worst_rel", worst));
+    vf::obs_max("max_rel_galerkin_discrepancy", worst); vf::obs_sum("galerkin_entries_checked", (double)nent);
+}
+inline void check_transpose(Case &c, const std::string &tag, const Csr<double> &P, const Csr<double> &R) { c.check(same_matrix(vf::transpose(P), R), "restriction-not-transpose:" + tag, "gathered R is not bit-identical to the transpose of the gathered P"); }
+
+// Global-partition clause for a tentative prolongation.  b: block size (dofs per point), K: near-null-space vectors (0: piecewise constant).
+// Strength of connection is evaluated from its definition on the assembled matrix; rows whose classification is within rounding of the threshold are skipped.
+struct PartStat { long nonisolated = 0, isolated = 0, ambiguous = 0, aggregates = 0; std::vector<long> agg_of_point; std::vector<long> agg_size; };
+inline PartStat check_partition(Case &c, const std::string &tag, const Csr<double> &A, const Csr<double> &P, double eps, int b, int K) {
+    PartStat st; long n = A.n, np = n / b; int w = K ? K : b;      // columns per aggregate
+    // pointwise matrix: max |a_ij| over the block
+    std::vector<std::map<long, double>> Ap(np); for (long i = 0; i < n; ++i) for (auto j = A.ptr[i]; j < A.ptr[i + 1]; ++j) { double &v = Ap[i / b][A.col[j] / b]; v = std::max(v, std::fabs(A.val[j])); }
+    std::vector<int> cls(np, 0);   // 1 non-isolated, 0 isolated, -1 ambiguous
+    for (long I = 0; I < np; ++I) { double dI = Ap[I].count(I) ? Ap[I][I] : 0; bool strong = false, amb = false;
+        for (auto &kv : Ap[I]) { if (kv.first == I) continue; double dJ = Ap[kv.first].count(kv.first) ? Ap[kv.first][kv.first] : 0; double lhs = eps * eps * dI * dJ, rhs = kv.second * kv.second;
+            if (rhs > lhs * (1 + 1e-9)) strong = true; else if (rhs >= lhs * (1 - 1e-9)) amb = true; }
+        cls[I] = strong ? 1 : (amb ? -1 : 0); (strong ? st.nonisolated : (amb ? st.ambiguous : st.isolated))++; }
+    bool shape = (long)P.n == n && P.m % w == 0; if (!c.check(shape, "partition:shape:" + tag, "tentative prolongation has the wrong shape", J().n("rows", P.n).n("cols", P.m).n("n", n))) return st;
+    long nagg = P.m / w; st.aggregates = nagg; st.agg_of_point.assign(np, -1); st.agg_size.assign(nagg, 0);
+    bool one = true, dofs = true, unit = true; long bad_row = -1;
+    for (long I = 0; I < np; ++I) { long agg = -2;
+        for (int k = 0; k < b; ++k) { long i = I * b + k; long cnt = P.ptr[i + 1] - P.ptr[i]; long a = -1;
+            if (cnt == 0) a = -1;
+            else if (K == 0) { if (cnt != 1) { one = false; bad_row = i; continue; } long col = P.col[P.ptr[i]]; a = col / b; if (col % b != k) dofs = false; if (P.val[P.ptr[i]] != 1.0) unit = false; }
+            else { if (cnt != K) { one = false; bad_row = i; continue; } a = P.col[P.ptr[i]] / K; for (int q = 0; q < K; ++q) if (P.col[P.ptr[i] + q] != a * K + q) { one = false; bad_row = i; } }
+            if (agg == -2) agg = a; else if (agg != a) dofs = false; }
+        if (cls[I] == 1 && agg < 0) { one = false; bad_row = I * b; }
+        st.agg_of_point[I] = agg; if (agg >= 0 && agg < nagg) st.agg_size[agg]++; }
+    c.check(one, "partition:not-exactly-one-aggregate:" + tag, "a non-isolated unknown is in no aggregate, or a row of the tentative prolongation addresses more than one aggregate", J().n("row", bad_row).n("block_size", b).n("nullspace_cols", K));
+    c.check(dofs, "partition:dofs-of-a-point-split:" + tag, "the unknowns of one point are mapped to different aggregates or to the wrong component", J().n("block_size", b));
+    if (K == 0) c.check(unit, "partition:entry-not-one:" + tag, "piecewise-constant tentative prolongation has an entry different from 1");
+    long empty = 0; for (auto s : st.agg_size) if (!s) ++empty;
+    c.check(empty == 0, "partition:empty-aggregate:" + tag, "a coarse column (aggregate) has no fine unknown", J().n("empty", empty).n("aggregates", nagg));
+    return st;
+}
+
 
 inline std::string part_modes(const Part &p) { int e = 0; for (size_t k = 0; k + 1 < p.size(); ++k) if (p[k + 1] == p[k]) ++e; return e ? "empty-ranks" : "all-active"; }
 
